@@ -57,9 +57,11 @@ DESCRIPTION = {
     ],
     "required_probes": {
         "quick": ["run_failed_after_registration", "provider_reused_after_failed_run", "overlapping_nonempty_sessions",
-                  "default_provider_concurrent", "hygiene_probe", "insertion_sweep", "same_text_tsql_split_then_other_dialect", "project_sqlfluff_config"],
+                  "default_provider_concurrent", "hygiene_probe", "insertion_sweep", "same_text_tsql_split_then_other_dialect", "project_sqlfluff_config",
+                  "entry_cli", "entry_server"],
         "thorough": ["run_failed_after_registration", "provider_reused_after_failed_run", "overlapping_nonempty_sessions",
-                     "default_provider_concurrent", "hygiene_probe", "same_text_two_providers", "sqlalchemy_provider", "tsql_split_mode", "silent_mode"],
+                     "default_provider_concurrent", "hygiene_probe", "same_text_two_providers", "sqlalchemy_provider", "tsql_split_mode", "silent_mode",
+                     "entry_cli", "entry_server", "entry_cli_file"],
     },
 }
 
@@ -158,6 +160,106 @@ def probe_provider(prov) -> dict:
     return {t: [str(c) for c in prov.get_table_columns(Table(t))] for t in PROBE_TABLES}
 
 
+
+# ---------------------------------------------------------------------------
+# entry points other than the Python API (round 11): the command line (`sqllineage.cli.main`, which builds its own
+# provider per call) and the bundled web application (`POST /lineage`, whose provider is one object shared by all
+# requests of the process - so requests of one world are issued by one thread, sequentially)
+
+
+class _ThreadStdout:
+    """sys.stdout of an entry-point world: what a simulated thread prints while it is inside a command-line run goes
+    to that run's buffer (a process-wide redirect would mix the output of interleaved runs)."""
+
+    def __init__(self, real):
+        self.real = real
+
+    def _target(self):
+        t = current()
+        buf = t.ctx.get("stdout") if t is not None else None
+        return buf if buf is not None else self.real
+
+    def write(self, s):
+        self._target().write(s)
+        return len(s)
+
+    def flush(self):
+        pass
+
+    def __getattr__(self, name):
+        return getattr(self.real, name)
+
+
+def _canon_cli(level, text):
+    lines = text.splitlines()
+    if level == "table" or not any(canon._SUBQ.search(l) for l in lines):
+        return [canon._rw(l) for l in lines]
+    return sorted(canon._rw(l) for l in lines)
+
+
+def entry_call(run: dict, sql: str, sim_thread=None):
+    """One analysis through the command line or the web application; returns [[accessor, canonical value]]."""
+    import io
+
+    if run["entry"] == "cli":
+        import contextlib
+
+        from sqllineage.cli import main
+
+        args = ["-d", run["dialect"], "-l", run["level"]]
+        if run.get("verbose"):
+            args.append("-v")
+        if run.get("silent"):
+            args.append("--silent_mode")
+        if run.get("_cli_file"):
+            with no_preempt(), open(run["_cli_file"], "w") as f:
+                f.write(sql)
+            args += ["-f", run["_cli_file"]]
+        else:
+            args += ["-e", sql]
+        buf = io.StringIO()
+        try:
+            if sim_thread is not None:
+                sim_thread.ctx["stdout"] = buf
+                try:
+                    main(args)
+                finally:
+                    sim_thread.ctx["stdout"] = None
+            else:
+                with contextlib.redirect_stdout(buf):
+                    main(args)
+            val = _canon_cli(run["level"], buf.getvalue())
+        except (Exception, SystemExit) as e:
+            val = {"exception": type(e).__name__}
+        return [["cli", val]]
+    if run["entry"] == "server":
+        from sqllineage.drawing import app
+
+        body = json.dumps({"e": sql, "dialect": run["dialect"]}).encode()
+        env = {"REQUEST_METHOD": "POST", "PATH_INFO": "/lineage", "CONTENT_LENGTH": str(len(body)), "wsgi.input": io.BytesIO(body)}
+        got = {}
+
+        def start_response(status, headers):
+            got["status"] = status
+
+        try:
+            chunks = app(env, start_response)
+            payload = json.loads(b"".join(chunks))
+            if isinstance(payload, dict) and "dag" in payload:
+                val = {"status": got.get("status"), "verbose": canon._rw(payload["verbose"]), "dag": canon._cyto(payload["dag"]), "column": canon._cyto(payload["column"])}
+            else:
+                val = {"status": got.get("status"), "body": canon._rw_obj(payload)}
+        except Exception as e:
+            val = {"exception": type(e).__name__}
+        return [["server", val]]
+    raise ValueError(run["entry"])
+
+
+def server_provider():
+    from sqllineage.drawing import app
+
+    return app.metadata_provider
+
 # ---------------------------------------------------------------------------
 # one analysis (used both inside the simulation and for the isolated reference)
 
@@ -174,6 +276,8 @@ def analyse(run: dict, prov):
     sql = run.get("sep", ";\n").join(run["script"])
 
     def go():
+        if run.get("entry"):
+            return entry_call(run, sql)
         try:
             runner = LineageRunner(sql, **kwargs)
         except Exception as e:  # (strict-warnings worlds: the constructor itself may warn)
@@ -342,13 +446,24 @@ def _run_one(spec: dict) -> dict:
             for run in th["runs"]:
                 if run.get("project") is not None:
                     run["_file_path"] = os.path.join(pdir, f"p{run['project']}", "script.sql")
+    if any(run.get("cli_file") for th in spec["threads"] for run in th["runs"]):
+        import tempfile
+
+        basedir = os.environ.get("VERIF_WORK") or tempfile.gettempdir()
+        cdir = tempfile.mkdtemp(prefix="c12cli-", dir=basedir)
+        n = 0
+        for th in spec["threads"]:
+            for run in th["runs"]:
+                if run.get("cli_file"):
+                    n += 1
+                    run["_cli_file"] = os.path.join(cdir, f"script{n}.sql")
     # 1. isolated references first, while this process is still pristine and single-threaded
     refs = dict(spec.get("_refs") or {})
     for th in spec["threads"]:
         for run in th["runs"]:
             ps = spec["providers"][run["provider"]] if run["provider"] is not None else None
             clean = {k: v for k, v in run.items() if k != "faults"}
-            key = digest([{k: v for k, v in clean.items() if k != "_file_path"}, ps])
+            key = digest([{k: v for k, v in clean.items() if k not in ("_file_path", "_cli_file")}, ps])
             if key not in refs:
                 refs[key] = reference(clean, ps)
             run["_ref"] = key
@@ -395,8 +510,11 @@ def _run_one(spec: dict) -> dict:
     texts_by_provider = {}
 
     def hygiene(t, pid, where):
-        prov = providers[pid] if pid is not None else default_prov
-        ps = spec["providers"][pid] if pid is not None else {"kind": "dummy", "meta": {}}
+        if pid == "server":
+            prov, ps = server_provider(), {"kind": "dummy", "meta": {}}
+        else:
+            prov = providers[pid] if pid is not None else default_prov
+            ps = spec["providers"][pid] if pid is not None else {"kind": "dummy", "meta": {}}
         with no_preempt():
             got = probe_provider(prov)
             if ps["kind"] == "sqlalchemy":  # a fresh one answers straight from the tables that were created
@@ -416,6 +534,8 @@ def _run_one(spec: dict) -> dict:
                "prov_kind": spec["providers"][pid]["kind"] if pid is not None else "default"}
         t.ctx["run"] = rec
         pkey = "default" if pid is None else pid
+        if run.get("entry"):
+            pkey = run["entry"]  # the command line builds a provider per call; the web application owns one
         w.active[pkey] = w.active.get(pkey, 0) + 1
         if pid is None and w.active[pkey] >= 2:
             w.probe("default_provider_concurrent")
@@ -445,6 +565,10 @@ def _run_one(spec: dict) -> dict:
             w.probe("strict_warnings_world")
         if run.get("scalar_subquery"):
             w.probe("scalar_subquery_nested_runner")
+        if run.get("tsql_plain"):
+            w.probe("tsql_plain_mode_without_semicolons")
+            if spec.get("werror"):
+                w.probe("strict_warnings_tsql_split_and_plain_mode")
         fired_at = None
         out = []
         try:
@@ -461,6 +585,14 @@ def _run_one(spec: dict) -> dict:
 
             def go():
                 nonlocal fired_at
+                if run.get("entry"):
+                    w.probe("entry_" + run["entry"])
+                    if run.get("_cli_file"):
+                        w.probe("entry_cli_file")
+                    out.extend(entry_call(run, sql, sim_thread=t))
+                    if rec["fault_fired"]:
+                        fired_at = 0
+                    return
                 try:
                     runner = LineageRunner(sql, **kwargs)
                 except Exception as e:  # (strict-warnings worlds: the constructor itself may warn)
@@ -500,8 +632,8 @@ def _run_one(spec: dict) -> dict:
                 break
         w.log(t.idx, "run.end", [run["tag"], "failed" if failed else "ok", rec["lookups"], rec["registered"], short(out, 12)])
         # O2: whenever a run ends and its provider is quiescent
-        if w.active[pkey] == 0:
-            hygiene(t, pid, f"after run {run['tag']} ({'failed' if failed else 'ok'})")
+        if w.active[pkey] == 0 and pkey != "cli":  # (a command-line call builds and drops its own provider: nothing to probe)
+            hygiene(t, "server" if pkey == "server" else pid, f"after run {run['tag']} ({'failed' if failed else 'ok'})")
 
     for i, th in enumerate(spec["threads"]):
         def mk(th=th):
@@ -527,9 +659,15 @@ def _run_one(spec: dict) -> dict:
     if want:
         _tracer = LineTracer(sched, want, granularity=spec.get("gran", "line"))
         _tracer.install()
+    import sys
+
+    real_stdout = sys.stdout
+    if any(r.get("entry") == "cli" for th in spec["threads"] for r in th["runs"]):
+        sys.stdout = _ThreadStdout(real_stdout)
     try:
         sched.run()
     finally:
+        sys.stdout = real_stdout
         if _tracer is not None:
             _tracer.enabled = False
         tapmod.set_tap(None)
@@ -539,13 +677,14 @@ def _run_one(spec: dict) -> dict:
                 raise t.exc
             w.violate("thread_died", f"thread {t.name} died with {type(t.exc).__name__}: {t.exc}", t.idx)
     # global quiescence: every provider, including the shared default one
-    for pid in [None] + list(range(len(providers))):
+    for pid in [None] + list(range(len(providers))) + (["server"] if any(r.get("entry") == "server" for th in spec["threads"] for r in th["runs"]) else []):
         hygiene(None, pid, "after all runs ended")
     _world = None
     for th in spec["threads"]:
         for run in th["runs"]:
             run.pop("_ref", None)
             run.pop("_file_path", None)
+            run.pop("_cli_file", None)
             for f in run.get("faults", ()):
                 f.pop("_fired", None)
     op_events = [[e[1], e[2], e[3]] for e in w.events]
@@ -856,6 +995,21 @@ def gen(seed, tier="quick") -> dict:
                    "scalar_subquery": True}
             th = threads[k % len(threads)]
             th["runs"].insert(gw.randrange(len(th["runs"]) + 1), run)
+        if gw.random() < 0.7:
+            # T-SQL scripts without semicolons, in split mode (analysed whole) and in plain mode (only the first statement
+            # is analysed and a SyntaxWarning - here an error - says so), in different threads where there are several
+            for k in range(gw.choice([1, 2])):
+                rid += 1
+                run = gen_tsql_run(gw, f"ts{rid}", None)
+                th = threads[k % len(threads)]
+                th["runs"].insert(gw.randrange(len(th["runs"]) + 1), run)
+            for k in range(gw.choice([1, 2])):
+                rid += 1
+                run = gen_tsql_run(gw, f"tp{rid}", None)
+                run.pop("cfg")
+                run["tsql_plain"] = True
+                th = threads[(k + 1) % len(threads)]
+                th["runs"].insert(gw.randrange(len(th["runs"]) + 1), run)
         if gw.random() < 0.6:
             rid += 1
             threads[gw.randrange(len(threads))]["runs"].append({"tag": f"legacy{rid}", "script": [f"INSERT INTO {gw.choice(UNIVERSE)} SELECT * FROM {gw.choice(sorted(BASE_META))}"],
@@ -879,6 +1033,32 @@ def gen(seed, tier="quick") -> dict:
                    "accessors": go.sample(ACC_POOL, 2), "oversized": True}
             th = go.choice(threads)
             th["runs"].insert(go.randrange(len(th["runs"]) + 1), run)
+    ge = stream(seed, "gen-entry")
+    if ge.random() < 0.15:
+        # entry points other than the Python API: requests to the bundled web application (one provider object for the
+        # whole process: issued by one thread, one after the other) and command-line invocations (a provider per call)
+        srv_thread = ge.randrange(len(threads))
+        for k in range(ge.choice([0, 1, 2, 2, 3])):
+            rid += 1
+            tag = f"r{ge.randrange(1, rid)}" if ge.random() < 0.5 else f"r{rid}"
+            base = gen_run(ge, tag, None, allow_faults=faulty, special=False)
+            prev = [r for r in threads[srv_thread]["runs"] if r.get("entry") == "server"]
+            if prev and ge.random() < 0.3:  # the text of an earlier request again, under the other parser
+                base["script"] = list(ge.choice(prev)["script"])
+                base["dialect"] = ge.choice(["ansi", "non-validating", "mysql"])
+                base["faults"] = [f for f in base["faults"] if f["kind"] != "stmt_fail"]
+            run = {"tag": f"srv{rid}", "script": base["script"], "dialect": base["dialect"], "provider": None, "faults": base["faults"], "silent": False,
+                   "accessors": ["server"], "entry": "server"}
+            th = threads[srv_thread]
+            th["runs"].insert(ge.randrange(len(th["runs"]) + 1), run)
+        for k in range(ge.choice([1, 1, 2, 3])):
+            rid += 1
+            tag = f"r{ge.randrange(1, rid)}" if ge.random() < 0.5 else f"r{rid}"
+            base = gen_run(ge, tag, None, allow_faults=faulty, special=False)
+            run = {"tag": f"cli{rid}", "script": base["script"], "dialect": base["dialect"], "provider": None, "faults": base["faults"], "silent": False,
+                   "accessors": ["cli"], "entry": "cli", "level": ge.choice(["table", "column", "column"]), "verbose": ge.random() < 0.3, "cli_file": ge.random() < 0.4}
+            th = ge.choice(threads)
+            th["runs"].insert(ge.randrange(len(th["runs"]) + 1), run)
     if tier == "thorough":
         line_choices.append(["runner", "metadata_provider", "holders"])
     return {
@@ -887,7 +1067,7 @@ def gen(seed, tier="quick") -> dict:
         "projects": projects,
         "threads": threads,
         "sched": g.choice(["random", "sticky", "sticky50", "pct1", "pct2", "pct3", "retbias"]),
-        "line": g.choice(line_choices) if not werror else ["runner", "metadata_provider"],
+        "line": g.choice(line_choices) if not werror else gw.choice([["runner", "metadata_provider"], ["runner", "analyzer"], ["analyzer"]]),
         "werror": werror,
         "gran": g.choice(["line", "line", "line", "instr"]),
         "horizon": 600,
